@@ -125,6 +125,18 @@ CORPUS_SETS = [
 ]
 
 
+def clips_to_empty_path(svg_text):
+    """known finding F18: picosvg's clip_to_viewbox leaves a <path> without d"""
+    from picosvg.svg import SVG
+
+    try:
+        p = SVG.fromstring(svg_text).topicosvg()
+        p.clip_to_viewbox(inplace=True)
+        return any(el.get("d") in (None, "") for el in p.svg_root.iter("{http://www.w3.org/2000/svg}path"))
+    except Exception:
+        return False
+
+
 def glyph_picture(font, g):
     """the picture a colour glyph paints, from COLR or from its OT-SVG document"""
     if "COLR" in font:
@@ -133,6 +145,8 @@ def glyph_picture(font, g):
 
     gid = font.getGlyphID(g)
     covering = [d for d in svg_docs(font) if d[1] <= gid <= d[2]]
+    if not covering:
+        return [], []  # a glyph that paints nothing has no document; the comparison sees an empty picture
     if len(covering) != 1:
         return [], [f"{len(covering)} SVG documents cover glyph {g}"]
     return picture.otsvg_picture(covering[0][0], gid)
@@ -146,8 +160,8 @@ def check_pair(report, tag, fmt, tol, over, srcs):
         off_font, cfg_off, _, _ = build.build_inprocess(dict(over, reuse_tolerance=-1.0), srcs)
     except Exception as ex:
         case["error"] = f"{type(ex).__name__}: {ex}"
-        report_failure(report, f"pair_build_{tag}", case)
-        return False
+        fid = "F18-empty-path-after-clip" if "look like a path" in str(ex) and any(clips_to_empty_path(s[1]) for s in srcs) else None
+        return not report_failure(report, f"pair_build_{tag}", case, fid)
     report.hist("pairs.format", fmt)
     report.hist("pairs.tolerance", tol)
     reused = 0
@@ -203,6 +217,22 @@ def run_pairs(report, n, rng):
         report_failure(report, "tolerance_zero", dict(kind="e2e", reuse_tolerance=0.0, error=repr(ex), sources=[s[1] for s in srcs]))
 
 
+F18_WITNESS = ('<svg xmlns="http://www.w3.org/2000/svg" viewBox="0 7 100 100"><path d="M179.231,137 C179.231,168.313 164.955,181.783 140,181.783 '
+               'C113.848,181.783 99.632,163.681 99.632,137 C99.632,118.084 119.479,92.687 140,92.687 C156.484,92.687 179.231,116.804 179.231,137 Z" fill="red"/>'
+               '<path d="M10,10 L40,10 L40,40 L10,40 Z" fill="blue"/></svg>')
+
+
+def run_f18_witness(report):
+    srcs = [(build.filename_for((0x1F600,)), F18_WITNESS, (0x1F600,))]
+    for tol in (0.1, -1.0):
+        try:
+            build.build_inprocess(dict(color_format="glyf_colr_1", reuse_tolerance=tol), srcs)
+        except Exception as ex:
+            fid = "F18-empty-path-after-clip" if "look like a path" in str(ex) and clips_to_empty_path(F18_WITNESS) else None
+            report_failure(report, "grazing_shape", dict(kind="e2e", reuse_tolerance=tol, error=repr(ex), sources=[F18_WITNESS]), fid)
+            return
+
+
 def main(argv):
     common.setup_env()
     tier = common.tier_from_args(argv)
@@ -219,6 +249,7 @@ def main(argv):
     if common.vo_ok("Corr/C06.v"):
         run_cache(report, 120 if tier == "quick" else 2500, rng)
     run_pairs(report, 16 if tier == "quick" else 400, rng)
+    run_f18_witness(report)
     if not st["proof_ok"] and not report.violations:
         report.violation("proof", dict(kind="proof", theorem="Props/C06.v", detail=report.notes.get("proof_failure")), found_input=False)
     report.open_obligations = [
